@@ -592,6 +592,14 @@ func init() {
 		err := geojson.Unmarshal(a[0].b, &g)
 		return []any{g, err}
 	})
+	reg("geojson.Unmarshal/into-a-variable-that-holds-a-geometry", []string{"j", "g"}, func(c *Call, a []*item) any {
+		// the destination variable still holds a geometry (the previous row, a
+		// template): Unmarshal puts the decoded geometry into the variable, the
+		// geometry it held stays what it was
+		g := a[1].g
+		err := geojson.Unmarshal(a[0].b, &g)
+		return []any{g, err, g == a[1].g && err == nil && len(a[0].b) > 0}
+	})
 	reg("geojson.Feature", []string{"g"}, func(c *Call, a []*item) any {
 		f := &geojson.Feature{ID: "f1", Geometry: a[0].g, Properties: map[string]interface{}{"k": "v", "n": 1.5}}
 		if c.I&1 != 0 {
